@@ -145,6 +145,27 @@ struct Obj {
   int tracked_high = 0;
 };
 
+// F7 (known finding, reported by this target): a protobuf message re-created from capacity metadata is not equal to a
+// fresh one when a singular sub-message field was ever used: MessageAllocationMetadata::FieldAllocationMetadata::reserve
+// calls Reflection::MutableMessage, which sets the presence bit, and nothing clears it afterwards (has_options() stays
+// true, the message serializes an empty `options {}`). The shape is exactly: a manager-owned message whose singular
+// sub-message field is touched before a re-creation. Excluded from generation unless VF_ALLOW_KNOWN=1.
+bool allow_known() {
+  static int v = -1;
+  if (v < 0) {
+    const char* e = getenv("VF_ALLOW_KNOWN");
+    v = (e && *e && *e != '0') ? 1 : 0;
+  }
+  return v == 1;
+}
+bool g_excluded_f7 = false;
+bool known_f7_submessage_presence_after_recreation(bool touches_singular_submessage) {
+  if (!touches_singular_submessage || allow_known()) return false;
+  if (!g_excluded_f7) vfz::label("excluded_known_f7");
+  g_excluded_f7 = true;
+  return true;
+}
+
 void fill_msg(Msg& m, const Fill& f) {
   if (!f.strs.empty()) m.set_name(f.strs[0]);
   for (size_t i = 1; i < f.strs.size(); i++) {
@@ -156,13 +177,15 @@ void fill_msg(Msg& m, const Fill& f) {
       auto* fd = mt->add_field();
       fd->set_name(f.strs[i - 1]);
       fd->set_number((int)i);
-    } else {
+    } else if (!known_f7_submessage_presence_after_recreation(true)) {
       m.mutable_options()->set_java_package(f.strs[i]);
+    } else {
+      m.set_package(f.strs[i]);
     }
   }
   for (int v : f.ints) m.add_public_dependency(v);
   if (f.shape & 1) m.set_syntax("proto3");
-  if (f.shape & 2) m.mutable_options()->set_deprecated(true);
+  if ((f.shape & 2) && !known_f7_submessage_presence_after_recreation(true)) m.mutable_options()->set_deprecated(true);
 }
 
 struct Runner {
@@ -457,7 +480,6 @@ struct Runner {
       mgr->resource().set_page_allocator(pa);
     }
     mgr->set_recreate_interval(interval);
-    mgr->resource().allocate<1>(1);  // (see the note on nullptr arithmetic in the report: keep protobuf off a pristine resource)
     size_t nobj = 1 + d.u8() % 5;
     note("interval=%zu ps=%zu objs=[", interval, ps);
     for (size_t i = 0; i < nobj; i++) {
@@ -535,6 +557,7 @@ extern "C" int LLVMFuzzerTestOneInput(const uint8_t* data, size_t size) {
   g_desc = &desc;
   Registry reg;
   g_reg = &reg;
+  g_excluded_f7 = false;
   {
     Runner r(d, desc);
     r.run();
